@@ -1,4 +1,5 @@
 PROP = dict(
+    ready=True,
     coq=["theories/Properties/C20.v"],
     suites=[dict(bin="obs-sqltext")],
     trusted=[
